@@ -61,3 +61,23 @@ CHECKS["C20"] = ("exploration",
    "Encrypted OOXML packages (three EncryptionInfo variants, packages below/above the mini-stream cutoff, DataSpaces tree, containers without mini stream) in random compound-file layouts are opened as Xlsx and Xlsb; BIFF8 workbooks get a FILEPASS (XOR/RC4/CryptoAPI) at every globals position with ciphertext payloads, plus BIFF5-style 4-byte FILEPASS; ods manifests declare 1..4 encrypted entries. Each must fail with the reader's Password variant; the same logical workbooks unencrypted, in all four formats, must not.",
    "trusted base: the reference encoders; ciphertext is random bytes",
    "DESIGN.md §7 C20")
+CHECKS["C14"] = ("exploration",
+   "runtime monitoring: formula ASTs encoded to BIFF8/XLSB tokens and xlsx/ods text vs independent AST->A1 renderer (files + direct hook sweeps); exhaustive push_column sweep",
+   "Formula ASTs over the statement's grammar are encoded by independent token encoders, placed in generated workbooks of all four formats and read through worksheet_formula and defined_names; the xls and xlsb token parsers are also driven directly through hooks; a failing formula is attributed to its smallest failing sub-expressions; push_column is swept over all 16384 columns.",
+   "trusted base: the AST->token encoders and the A1 renderer ([MS-XLS] 2.5.198, [MS-XLSB] 2.5.97); plain sheet names; Rust number formatting on both sides",
+   "DESIGN.md §7 C14")
+CHECKS["C16"] = ("exploration",
+   "runtime monitoring: generated workbooks of all four formats vs reference-model oracle on sheet_names / sheets_metadata / defined_names / date system",
+   "Workbooks with 1..12 uniquely named sheets (escaping-relevant and non-ASCII names), every visibility x kind combination the format expresses, defined names (text or 3-D reference tokens) and both date systems are written by the reference encoders in random physical encodings and the reported metadata is compared field by field, in order.",
+   "trusted base: the four reference encoders",
+   "DESIGN.md §7 C16")
+CHECKS["C17"] = ("exploration",
+   "runtime monitoring: generated merged regions and tables vs geometry oracle through every accessor",
+   "xlsx sheets with merged regions at arbitrary coordinates and tables in every header/totals configuration and placement are read through all five merged-region accessors and the table API (owned and borrowed); xls sheets with up to 1066 merged regions split over several MERGECELLS records are read through both xls accessors.",
+   "trusted base: the xlsx and BIFF8 reference encoders; tables have >= 1 data row",
+   "DESIGN.md §7 C17")
+CHECKS["C19"] = ("exploration",
+   "runtime monitoring: uniquely tagged strings of ten character classes in every storage form of every format vs string-equality oracle",
+   "Strings (XML specials, spaces, tab/LF/CR, combining marks, BMP, astral, up to 32000 characters) are stored in every form each format offers (xlsx shared/inline/str x plain/rich/phonetic x four escaping layers with empty shared items interleaved; xlsb Isst/St/FmlaString; xls LABELSST/LABEL/FORMULA+STRING in 8/16-bit; ods string-value/text:p/text:s/paragraphs/spans) and must read back exactly.",
+   "trusted base: the four reference encoders; empty-text cells, _xHHHH_, text:tab, text:line-break outside the statement",
+   "DESIGN.md §7 C19")
